@@ -441,6 +441,45 @@ theorem utf8map_correct (units : List Nat) (l : List (Nat × Nat)) (h : strictDe
   have hne : pre8 l k ≠ 0 := by omega
   simp [pmGet, hne, hs]
 
+/-- Go's `FindAll` sweep (linear engine, start 0) IS the protocol's sweep whenever no empty match starts exactly where
+the previous match ended — the precise circumstance of the remaining known finding go-adjacent-empty
+(`goAll_adjacent_empty_witness` shows the hypothesis cannot be dropped). -/
+theorem goAll_eq_ideal_of_no_adjacent_empty (fl : RFlags) (f : Finder) (units : List Nat)
+    (h : NoAdjEmpty (idealAll fl f units 0 none false) none) :
+    goAll fl f units = idealAll fl f units 0 none false :=
+  goAllLoop_eq_ideal fl f units _ 0 none h
+
+/-- …hence `Symbol.match` through Go's FindAll = the generic protocol for a global non-sticky RegExp in that case. -/
+theorem fastMatch_go_eq_generic (fl : RFlags) (f : Finder) (units : List Nat) (hg : fl.global = true) (hy : fl.sticky = false)
+    (h : NoAdjEmpty (idealAll fl f units 0 none false) none) :
+    (genericGlobalMatches fl f units).1 = goAll fl f units := by
+  rw [idealSweep_eq_generic fl f units hg, hy, goAll_eq_ideal_of_no_adjacent_empty fl f units h]
+
+/-- exec's `lowerBound` rule (execResultToArray) changes nothing when captures are unset or listed in order — a
+sufficient, checkable condition for the `CapsAgree` hypothesis of `fastSplit_eq_generic`. -/
+theorem execCaptures_eq_plain (units : List Nat) (idx : List Int) (lower : Nat) (h : CapsWF idx lower) :
+    captureVals units idx lower = captureValsPlain units idx :=
+  captureVals_eq_plain units idx lower h
+
+/-- Fast `Symbol.replace` with a `$` template, end to end: `stringReplace` + `writeSubstitution` over an ordered raw
+list = the spec's accumulation of GetSubstitution results (composition of `fastReplace_eq_generic` and
+`substitute_eq_getSubstitution`). -/
+theorem fastReplaceTemplate_eq_spec (units : List Nat) (raw : List (List Int)) (tmpl : List Nat)
+    (ns : List Int → Option (List Nat → Option (List Nat)))
+    (h : Ordered units.length raw 0) :
+    fastReplace units
+        (fun r => substitute units (rS r) (some (sub units (rS r) (rE r)) :: captureValsPlain units (r.drop 2))
+          (mechNamed (ns r)) tmpl) raw
+      = genericReplace units (raw.map (fun r => (rS r, rE r - rS r,
+          getSubstitution units (rS r) (sub units (rS r) (rE r)) (captureValsPlain units (r.drop 2)) (ns r)
+            (tmpl.length + 1) tmpl))) := by
+  rw [fastReplace_eq_generic units _ raw h]
+  congr 1
+  apply List.map_congr_left
+  intro r _
+  rw [substitute_eq_getSubstitution]
+
+
 /-! ## reference matcher (Ref.lean) -/
 
 /-- The three engine-forcing rewrites used by the check are semantically neutral for the reference semantics
@@ -458,6 +497,30 @@ j ≤ e ≤ |input| — for every pattern, option set (deviation switches includ
 theorem ref_match_bounds (o : Ref.Opts) (inp : Array Nat) (ncaps : Nat) (node : Ref.Node) (fuel i j : Nat) (r : Ref.St)
     (h : Ref.findFrom o inp ncaps node fuel i = some (j, r)) : i ≤ j ∧ j ≤ r.pos ∧ r.pos ≤ inp.size :=
   Ref.findFrom_bounds o inp ncaps node fuel i j r h
+
+/-- …and every capture it reports is a span a ≤ b ≤ |input| (look-ahead captures and captures cleared by quantifier
+iterations included). -/
+theorem ref_caps_bounds (o : Ref.Opts) (inp : Array Nat) (ncaps : Nat) (node : Ref.Node) (fuel i j : Nat) (r : Ref.St)
+    (h : Ref.findFrom o inp ncaps node fuel i = some (j, r)) : Ref.CapsIn inp r.caps :=
+  Ref.findFrom_caps o inp ncaps node fuel i j r h
+
+/-- The reference matcher's own finder (`Ref.refFind`, what `Ref.table` tabulates) satisfies, for EVERY pattern and
+input, the three conditions the protocol theorems assume of an engine (`Leftmost`): matches lie at or after the
+start and inside the input; the answer does not change while the start moves up to the match; no match from i ⇒
+no match from any later start.  So the hypotheses of `exec_lastIndex_protocol`, `fastSplit_eq_generic`, … are
+satisfiable by the ECMA-262 semantics itself, not only by hand-made finders. -/
+theorem ref_finder_leftmost (o : Ref.Opts) (inp : Array Nat) (ncaps : Nat) (node : Ref.Node) :
+    (∀ i j r, Ref.refFind o inp ncaps node i = some (j, r) → i ≤ j ∧ j ≤ r.pos ∧ r.pos ≤ inp.size) ∧
+    (∀ i j r i', Ref.refFind o inp ncaps node i = some (j, r) → i ≤ i' → i' ≤ j →
+        Ref.refFind o inp ncaps node i' = some (j, r)) ∧
+    (∀ i i', Ref.refFind o inp ncaps node i = none → i ≤ i' → Ref.refFind o inp ncaps node i' = none) := by
+  refine ⟨fun i j r h => Ref.findFrom_bounds o inp ncaps node _ i j r h, ?_, ?_⟩
+  · intro i j r i' h h1 h2
+    have := Ref.refFind_stable o inp ncaps node (i' - i) i j r h (by omega)
+    rwa [show i + (i' - i) = i' by omega] at this
+  · intro i i' h h1
+    have := Ref.refFind_none_up o inp ncaps node (i' - i) i h
+    rwa [show i + (i' - i) = i' by omega] at this
 
 /-! ## non-vacuity examples (tests on literals, not theorems) -/
 
